@@ -140,6 +140,30 @@ def run_harness(ctx, grp, h):
     return rec
 
 
+GLOBAL_STATE_RE = re.compile(r"static\s+mut\b|UnsafeCell|\bCell<|RefCell|Atomic[A-Z]\w*|thread_local!|lazy_static|OnceCell|OnceLock|LazyLock|LazyCell|Mutex<|RwLock<")
+GLOBAL_STATE_ALLOWED = re.compile(r"cpufeatures::new!\(aes_intrinsics,")
+
+
+def global_state_listing():
+    """C15 guard (not a deciding step): list every construct in the crates' sources that can hold state across calls.
+    The C15 harnesses cover instance immutability, per-instance histories and the cpufeatures detection cache; any
+    other such construct appearing in the sources is reported (-> inconclusive) until a harness covers it."""
+    found, allowed = [], []
+    for root, dirs, files in os.walk(REPO):
+        dirs[:] = [d for d in dirs if d not in ("target", ".git", "tests", "benches")]
+        for fn in files:
+            if not fn.endswith(".rs") or "/src" not in root + "/":
+                continue
+            p = os.path.join(root, fn)
+            for i, line in enumerate(open(p, errors="replace"), 1):
+                code = line.split("//")[0]
+                if GLOBAL_STATE_ALLOWED.search(code):
+                    allowed.append(f"{os.path.relpath(p, REPO)}:{i}")
+                elif GLOBAL_STATE_RE.search(code):
+                    found.append(f"{os.path.relpath(p, REPO)}:{i}: {code.strip()[:80]}")
+    return found, allowed
+
+
 def load_known():
     p = os.path.join(VERIF, "known_findings.json")
     if not os.path.exists(p):
@@ -217,6 +241,11 @@ def main():
     signal.signal(signal.SIGINT, on_sig)
     ctx = Ctx(prop, a.tier, scratch, a.jobs, seed)
     records, engine_errors, transforms = [], [], {}
+    if prop == "C15":
+        found, allowed = global_state_listing()
+        transforms["global_state_listing"] = {"covered_by_harness": allowed, "uncovered": found}
+        for f in found:
+            engine_errors.append(f"state-holding construct not covered by a C15 harness: {f}")
     try:
         groups = []
         for gi, (vname, files) in enumerate(plan.groups_for(prop, a.tier, seed)):
